@@ -165,12 +165,109 @@ pub fn run(run: &Run) {
     run.assume("Python NameErrors at import are attributed to C11 (user types) / C12 (helper names), not to C10");
     replay_regress(run, &C10);
     search(run, &C10, run.tier.pick(3000, 100_000));
+    if crate::cli::bin_available() {
+        run.assume("regeneration family: program A then program B are generated into the same path by the real binary; the file must be well-formed whenever a fresh generation of B is");
+        replay_regress(run, &C10Rewrite);
+        search(run, &C10Rewrite, run.tier.pick(300, 5000));
+    } else {
+        run.extra("regeneration_family", json!("not run: typeshare binary not built"));
+    }
 }
 
 pub fn replay(run: &Run, case: &serde_json::Value) -> Result<Vec<Violation>, String> {
     ts::install_panic_hook();
+    if case.get("rewrite").is_some() {
+        return replay_case(run, &C10Rewrite, case);
+    }
     replay_case(run, &C10, case)
 }
 
 #[allow(dead_code)]
 fn _unused(_: Lang) {}
+
+// =============================================================================================== regeneration family
+/// Every output file typeshare *writes* has to be a well-formed unit — also when the path already holds the output of an
+/// earlier run (shorter, longer, other language constructs). Through the real binary: generate program A to a path, then
+/// program B to the same path; the file must be well-formed whenever a fresh generation of B is.
+#[derive(Clone, Debug, serde::Serialize, serde::Deserialize)]
+pub struct RewriteCase {
+    pub rewrite: bool,
+    pub first: ProgCase,
+    pub second: ProgCase,
+    pub lang: Lang,
+    pub folder: bool,
+}
+pub struct C10Rewrite;
+impl SubCheck for C10Rewrite {
+    type Case = RewriteCase;
+    fn name(&self) -> &'static str {
+        "c10-regeneration"
+    }
+    fn strategy(&self, _tier: Tier) -> BoxedStrategy<RewriteCase> {
+        let g = gen_cfg();
+        (gen::program(&g), gen::program(&g), cfg_strategy(), crate::ws::lang_strategy(), any::<bool>())
+            .prop_map(|(a, b, cfg, lang, folder)| RewriteCase { rewrite: true, first: ProgCase { items: a, cfg: cfg.clone() }, second: ProgCase { items: b, cfg }, lang, folder })
+            .boxed()
+    }
+    fn eval(&self, run: &Run, c: &RewriteCase, w: &mut Worker, counting: bool) -> Vec<Violation> {
+        use crate::cli;
+        let mut out = vec![];
+        let lang = c.lang;
+        let root = cli::fresh_dir(&w.scratch, "c10rw");
+        cli::write_tree(
+            &root,
+            &[
+                ("one/my_crate/src/lib.rs".into(), items_src(&c.first.items).into_bytes()),
+                ("two/my_crate/src/lib.rs".into(), items_src(&c.second.items).into_bytes()),
+                ("conf/typeshare.toml".into(), cli::cfg_toml(&c.second.cfg).into_bytes()),
+            ],
+        );
+        let gen = |input: &str, dest: &std::path::Path| -> cli::CliRun {
+            let mut args: Vec<String> = vec!["--lang".into(), lang.name().into(), "-c".into(), root.join("conf/typeshare.toml").to_string_lossy().into_owned()];
+            args.push(if c.folder { "-d".into() } else { "-o".into() });
+            args.push(dest.to_string_lossy().into_owned());
+            args.push(root.join(input).to_string_lossy().into_owned());
+            cli::run(&args, &root, &[], std::time::Duration::from_secs(20))
+        };
+        let (reused, fresh) = if c.folder { (root.join("out_dir"), root.join("fresh_dir")) } else { (root.join(format!("out.{}", lang.ext())), root.join(format!("fresh.{}", lang.ext()))) };
+        if c.folder {
+            let _ = std::fs::create_dir_all(&reused);
+            let _ = std::fs::create_dir_all(&fresh);
+        }
+        let r1 = gen("one", &reused);
+        let r2 = gen("two", &reused);
+        let r3 = gen("two", &fresh);
+        if counting {
+            run.label(&format!("c10rw/{}/{}/first={} second={}", lang.short(), if c.folder { "folder" } else { "file" }, r1.ok(), r2.ok()));
+        }
+        if r1.ok() && r2.ok() && r3.ok() {
+            let read = |p: &std::path::Path| -> Vec<(String, Vec<u8>)> {
+                if c.folder { cli::read_tree(p) } else { vec![("out".into(), std::fs::read(p).unwrap_or_default())] }
+            };
+            let a = read(&reused);
+            let b = read(&fresh);
+            let shrank = a.iter().zip(b.iter()).any(|(x, y)| x.1.len() != y.1.len());
+            if counting {
+                run.nontrivial(hash_of(&(items_src(&c.first.items), items_src(&c.second.items), lang, c.folder)));
+            }
+            for (name, bytes) in &b {
+                let fresh_ok = crate::observe::observe(lang, &String::from_utf8_lossy(bytes), w, false).is_ok();
+                let Some((_, again)) = a.iter().find(|(n, _)| n == name) else { continue };
+                if !fresh_ok {
+                    continue; // ill-formed on its own: the in-process family reports that
+                }
+                if let Err(e) = crate::observe::observe(lang, &String::from_utf8_lossy(again), w, false) {
+                    out.push(Violation::new(
+                        format!("regeneration/{}/{}/ill-formed-only-when-the-path-held-an-earlier-output", lang.short(), if c.folder { "folder" } else { "file" }),
+                        format!("{}: generating into a path that already holds an earlier output leaves an ill-formed file ({}; lengths differ from a fresh generation: {shrank}); a fresh generation of the same input is well-formed", lang.name(), e.class()),
+                    ));
+                }
+            }
+        }
+        let _ = std::fs::remove_dir_all(&root);
+        out
+    }
+    fn render(&self, c: &RewriteCase) -> serde_json::Value {
+        json!({"lang": c.lang.name(), "folder_mode": c.folder, "first_source": items_src(&c.first.items), "second_source": items_src(&c.second.items), "typeshare.toml": crate::cli::cfg_toml(&c.second.cfg)})
+    }
+}
